@@ -455,6 +455,8 @@ def e1_flow(chk, scen_name, model, props, gen, n_cases, keyfn=None, sched=True, 
     sys.path.insert(0, str(HARNESS))
     scen = importlib.import_module(scen_name)   # parent: pure helpers only (no scheduler installed here)
     cases = list(corpus or []) + [gen(chk.rng) for _ in range(n_cases)]
+    nb0 = len(chk.corr_breaks)
+    nv0 = len(chk.violations)
     results = chk.run_cases(scen_name, cases, sched=sched)
     chk.account(scen, results, engine)
     chk.collect_monitors(results, props, keyfn)
@@ -465,11 +467,12 @@ def e1_flow(chk, scen_name, model, props, gen, n_cases, keyfn=None, sched=True, 
             chk.sample(dict(case=case, events=res.get('events', [])[:60], out=res.get('out'), end=res.get('end')))
             if len(chk.cov['samples']) >= 3:
                 break
-    if chk.corr_breaks and not chk.violations:
-        # search around the disagreeing cases
+    new_breaks = chk.corr_breaks[nb0:]
+    if new_breaks and len(chk.violations) == nv0:
+        # search around the disagreeing cases (of THIS scenario only)
         seeds = []
-        for b in chk.corr_breaks[:10]:
-            for k in range(max(1, escalate_n // min(10, len(chk.corr_breaks)))):
+        for b in new_breaks[:10]:
+            for k in range(max(1, escalate_n // min(10, len(new_breaks)))):
                 c = dict(b['case'])
                 c['seed'] = chk.rng.randrange(1 << 30)
                 c['chooser'] = list(chk.rng.choice([('random', 0.0), ('sticky', 0.2, 0.0), ('sticky', 0.05, 0.0),
@@ -479,5 +482,5 @@ def e1_flow(chk, scen_name, model, props, gen, n_cases, keyfn=None, sched=True, 
         more = chk.run_cases(scen_name, seeds, sched=sched)
         chk.account(scen, more, engine)
         chk.collect_monitors(more, props, keyfn)
-        chk.notes.append(f'correspondence broke on {len(chk.corr_breaks)} cases; escalated search over {len(seeds)} more cases')
+        chk.notes.append(f'{scen_name}: correspondence broke on {len(new_breaks)} cases; escalated search over {len(seeds)} more cases')
     return results
